@@ -26,7 +26,7 @@ EVIDENCE = {
              'duplicated or mislabelled fragment from a scripted peer; avctp_frag: a scripted peer fragments as the AVCTP specification '
              'lays out (PID in the start packet only) with the same faults; streams: random sequences of configure / open / start / '
              'suspend / close / abort from the initiating side. Non-trivial: a continuation / more than one fragment / at least three '
-             'stream procedures; distinct = distinct shape digest of the scenario parameters and outcome.'),
+             'stream procedures; distinct = distinct shape digest of the scenario parameters and outcome. Also: SDP queries abandoned right after the request went out; a second local source trying to configure the busy end-point; scenario slow_acceptor: one AVDTP transaction answered late while 0-40 later transactions complete.'),
     'real': ['bumble.sdp.Client', 'bumble.sdp.Server', 'bumble.avdtp.Protocol', 'bumble.avdtp.MessageAssembler', 'bumble.avctp.Protocol',
              'bumble.avctp.MessageAssembler', 'bumble.avdtp.Stream/LocalSource/LocalSink/Listener', 'bumble.l2cap', 'device/host/controller/link'],
     'stub': ['scripted fragment sender (AVDTP faults, AVCTP)', 'SDP reference matcher and attribute filter'],
